@@ -50,6 +50,9 @@ def synth_weather(spec):
     regime = spec.get("regime", "mild")
     south = spec.get("south", False)
     phase = (doy - (15 if south else 197)) / 365.25 * 2 * np.pi
+    if regime == "steady":
+        # a controlled-environment record: the same rain-free day throughout (what irrigation experiments assume)
+        return pd.DataFrame({"MinTemp": 15.0, "MaxTemp": 28.0, "Precipitation": 0.0, "ReferenceET": 5.0, "Date": dates})
     base = {"mild": 14, "hot": 26, "cold": 6, "storm": 18, "drought": 22}[regime]
     amp = {"mild": 9, "hot": 8, "cold": 10, "storm": 6, "drought": 10}[regime]
     tmean = base + amp * np.cos(phase) + rng.normal(0, 2.5, n)
@@ -223,11 +226,13 @@ CUSTOM_LAYERS = [
 ]
 
 
-def _season_window(rng, wname, crop, n_seasons, start_mode, planting=None):
+def _season_window(rng, wname, crop, n_seasons, start_mode, planting=None, end_anniv=None, year=None):
     """pick planting date and window inside a station's coverage"""
     lo, hi = STATIONS[wname]
     lo, hi = pd.Timestamp(lo), pd.Timestamp(hi)
     y0 = int(rng.integers(lo.year, hi.year - n_seasons - 1))
+    if year is not None:
+        y0 = int(year)        # a stratum built around the weather of particular years
     pm = int(rng.integers(1, 13))
     pd_ = int(rng.integers(1, 29))
     if planting is not None:
@@ -245,6 +250,9 @@ def _season_window(rng, wname, crop, n_seasons, start_mode, planting=None):
     else:  # after: start shortly after planting date -> first season is next year
         start = pdate + pd.Timedelta(days=int(rng.integers(1, 60)))
     end = pdate + pd.Timedelta(days=365 * (n_seasons - 1) + int(rng.integers(100, 420)))
+    if end_anniv is not None:
+        # the window ends a given number of days after a later planting date (a boundary of "one more season starts")
+        end = pd.Timestamp(year=pdate.year + int(end_anniv[0]), month=pm, day=pd_) + pd.Timedelta(days=int(end_anniv[1]))
     if end > hi:
         end = hi
     return planting, start.strftime("%Y/%m/%d"), end.strftime("%Y/%m/%d")
@@ -357,7 +365,7 @@ def gen_scenario(rng, idx, strata=None):
     wname = st.get("station") or str(rng.choice(list(STATIONS.keys())))
     n_seasons = st.get("n_seasons") or int(rng.choice([1, 1, 2, 3]))
     start_mode = st.get("start_mode") or str(rng.choice(["at", "before", "after"]))
-    planting, start, end = _season_window(rng, wname, crop_name, n_seasons, start_mode, st.get("planting"))
+    planting, start, end = _season_window(rng, wname, crop_name, n_seasons, start_mode, st.get("planting"), st.get("end_anniv"), st.get("year"))
     scen = {"id": idx, "start": start, "end": end, "weather": {"kind": "file", "name": wname}}
     if st.get("synth") or (strata is None and rng.random() < 0.3):
         lo = (pd.Timestamp(start) - pd.Timedelta(days=int(rng.integers(0, 40)))).strftime("%Y-%m-%d")
@@ -377,11 +385,13 @@ def gen_scenario(rng, idx, strata=None):
         nlayer = 2 if soil["type"] in ("Paddy", "ac_TunisLocal") else 1
     else:
         lays = copy.deepcopy(st["layers"] if "layers" in st else CUSTOM_LAYERS[rng.integers(len(CUSTOM_LAYERS))])
-        if st.get("restrictive") or rng.random() < 0.3:
+        if st.get("restrictive") or ("layers" not in st and rng.random() < 0.3):
             # a layer that restricts root penetration: any layer, preferably one with another layer below it
             li = int(rng.integers(0, max(1, len(lays) - 1))) if rng.random() < 0.7 else len(lays) - 1
             lays[li][5] = float(rng.choice([40, 50, 70]))
         soil = {"type": "custom", "layers": lays, "dz": DZ_CHOICES[1 + rng.integers(len(DZ_CHOICES) - 1)]}
+        if st.get("dz") is not None:
+            soil["dz"] = list(st["dz"])
         nlayer = len(lays)
         soil["kwargs"] = {"cn": float(rng.choice([46, 61, 72, 77])), "rew": float(rng.choice([5, 9, 12]))}
     kw = soil.setdefault("kwargs", {})
@@ -397,6 +407,12 @@ def gen_scenario(rng, idx, strata=None):
     scen["soil"] = soil
     # crop
     ov = {}
+    if "crop_over" in st:
+        ov.update(st["crop_over"])
+    elif strata is None and rng.random() < 0.25:
+        # a calibrated variant of the catalogue crop: one of the parameters users tune, within its documented range
+        k = str(rng.choice(list(TUNABLE)))
+        ov[k] = float(rng.choice(TUNABLE[k]))
     scen["crop"] = {"name": crop_name, "planting": planting, "overrides": ov}
     if st.get("harvest_early") or (strata is None and rng.random() < 0.12):
         # a configured latest harvest date that precedes maturity: the season is closed by the date
@@ -413,6 +429,16 @@ def gen_scenario(rng, idx, strata=None):
     scen["irr"] = random_irr(rng, method, start, end) if method != 0 or rng.random() < 0.5 else None
     if scen["irr"] is not None and "irr_over" in st:
         scen["irr"].update(st["irr_over"])
+    if "irr_sched_rel" in st:
+        # a dated schedule given in days after the first planting date (repeated every 365 days for later seasons)
+        p0 = pd.Timestamp(year=pd.Timestamp(start).year, month=int(planting[:2]), day=int(planting[3:]))
+        if p0 < pd.Timestamp(start):
+            p0 = pd.Timestamp(year=p0.year + 1, month=p0.month, day=p0.day)
+        ev = []
+        for yr in range(n_seasons):
+            for dap, dep in st["irr_sched_rel"]:
+                ev.append([(p0 + pd.Timedelta(days=365 * yr + int(dap) - 1)).strftime("%Y-%m-%d"), float(dep)])
+        scen["irr"] = dict(st.get("irr_over", {}), method=3, schedule=ev)
     if "soil_kw" in st:
         scen["soil"].setdefault("kwargs", {}).update(st["soil_kw"])
     scen["fm"] = random_fm(rng, st.get("fm"))
@@ -440,6 +466,12 @@ def gen_scenario(rng, idx, strata=None):
     return scen
 
 
+# parameters users calibrate, with values inside the ranges the reference manual gives
+TUNABLE = {"WPy": [50.0, 60.0, 80.0], "CCx": [0.6, 0.8], "HI0": [0.3, 0.4], "Zmax": [0.6, 1.0], "Kcb": [0.9, 1.15],
+           "p_up2": [0.4, 0.6], "p_up3": [0.45, 0.8], "Aer": [0.0, 15.0], "fage": [0.05, 0.3], "dHI0": [5.0, 25.0],
+           "exc": [50.0, 200.0], "SxTopQ": [0.02, 0.06]}
+
+
 QUICK_STRATA = [
     dict(crop="Wheat", station="tunis_climate.txt", irr_method=0, n_seasons=2, start_mode="at", off_season=False, soil="SandyLoam", soil_kind="builtin"),
     dict(crop="Maize", station="champion_climate.txt", irr_method=1, n_seasons=2, start_mode="before", off_season=True),
@@ -449,8 +481,9 @@ QUICK_STRATA = [
          iwc={"wc_type": "Prop", "method": "Layer", "depth_layer": [1], "value": ["WP"]}, soil="Loam", soil_kind="builtin"),
     dict(crop="Tomato", station="cordoba_climate.txt", irr_method=5, n_seasons=1, start_mode="before", off_season=True),
     dict(crop="PaddyRice", station="hyderabad_climate.txt", irr_method=5, n_seasons=1, fm="bunds", soil="Paddy", soil_kind="builtin", start_mode="at"),
-    dict(crop="MaizeGDD", station="champion_climate.txt", irr_method=1, n_seasons=2, start_mode="before", off_season=False),
-    dict(crop="WheatGDD", station="tunis_climate.txt", irr_method=0, n_seasons=2, gw=True, start_mode="before", off_season=True),
+    dict(crop="MaizeGDD", station="champion_climate.txt", irr_method=1, n_seasons=2, start_mode="before", off_season=False, planting="05/01",
+         soil_kind="builtin", dz=None),
+    dict(crop="WheatGDD", station="tunis_climate.txt", irr_method=0, n_seasons=2, gw=True, start_mode="before", off_season=True, planting="11/01"),
     dict(crop="Soybean", station="cordoba_climate.txt", irr_method=1, n_seasons=1, fm="mulch", start_mode="at"),
     dict(crop="Sunflower", station="tunis_climate.txt", irr_method=2, synth=True, regime="storm", n_seasons=1, start_mode="before", off_season=True),
     dict(crop="Barley", station="brussels_climate.txt", irr_method=0, synth=True, regime="drought", n_seasons=2, start_mode="before", off_season=True),
@@ -459,7 +492,7 @@ QUICK_STRATA = [
     dict(crop="SugarBeet", station="brussels_climate.txt", irr_method=1, fm="cnadj", synth=True, regime="storm", n_seasons=1, start_mode="before"),
     dict(crop="DryBean", station="cordoba_climate.txt", irr_method=0, synth=True, regime="hot", n_seasons=1, start_mode="at"),
     dict(crop="Tef", station="tunis_climate.txt", irr_method=2, synth=True, regime="cold", n_seasons=1, start_mode="before", off_season=True),
-    dict(crop="PotatoGDD", station="brussels_climate.txt", irr_method=5, fm="mix", n_seasons=1, start_mode="before", off_season=True),
+    dict(crop="PotatoGDD", station="brussels_climate.txt", irr_method=5, fm="mix", n_seasons=1, start_mode="before", off_season=True, planting="04/25"),
     # bunds during the season only, fallow days simulated, soil with a slowly draining pan: water is still ponded
     # on the day the bunds go (the one day on which reported infiltration is legitimately negative)
     dict(crop="PaddyRice", station="hyderabad_climate.txt", irr_method=5, fm="bunds", fm_over={"z_bund": 0.2}, ffm="none",
@@ -477,8 +510,9 @@ QUICK_STRATA = [
     dict(crop="Cotton", station="tunis_climate.txt", irr_method=4, soil_kind="custom", layers=CUSTOM_LAYERS[4], n_seasons=2,
          start_mode="at", off_season=False, iwc={"wc_type": "Pct", "method": "Layer", "depth_layer": [1, 2], "value": [30.0, 30.0]}),
     # season closed by the configured latest harvest date; deficit irrigation on a heavy soil
-    dict(crop="Cotton", station="tunis_climate.txt", planting="04/15", irr_method=1, irr_over={"SMT": [20.0] * 4, "MaxIrr": 25.0, "AppEff": 100.0},
-         soil="Clay", soil_kind="builtin", dz=None, n_seasons=2, start_mode="before", off_season=False,
+    dict(crop="Cotton", station="tunis_climate.txt", planting="04/15", irr_method=1,
+         irr_over={"SMT": [20.0] * 4, "MaxIrr": 25.0, "AppEff": 100.0, "MaxIrrSeason": 10000.0}, fm="none", gw=False,
+         soil="Clay", soil_kind="builtin", dz=None, n_seasons=3, year=1996, start_mode="before", off_season=False,
          iwc={"wc_type": "Prop", "method": "Layer", "depth_layer": [1], "value": ["FC"]}),
     dict(crop="Wheat", station="tunis_climate.txt", irr_method=0, soil="Loam", soil_kind="builtin", harvest_early=True,
          n_seasons=3, start_mode="at", off_season=False),
@@ -494,9 +528,15 @@ QUICK_STRATA = [
     dict(crop="Sorghum", station="hyderabad_climate.txt", irr_method=0, soil_kind="custom",
          layers=[[0.6, 0.30, 0.45, 0.50, 60, 50.0], [1.4, 0.06, 0.13, 0.36, 3000, 100]], gw=True, gw_values=[1.0, 1.4],
          n_seasons=1, start_mode="at"),
+    # a partly root-restricting horizon ABOVE a freely penetrable one, a profile deeper than the crop's maximum rooting
+    # depth and no water table: the roots cross the horizon and reach their maximum depth
+    dict(crop="Wheat", station="tunis_climate.txt", irr_method=2, irr_over={"IrrInterval": 7, "MaxIrr": 40.0, "MaxIrrSeason": 10000.0, "AppEff": 100.0},
+         soil_kind="custom", layers=[[0.7, 0.10, 0.22, 0.41, 1200, 60.0], [1.3, 0.23, 0.39, 0.50, 125, 100]], dz=[0.1] * 20,
+         fm="none", gw=False, planting="10/15", n_seasons=1, start_mode="at",
+         iwc={"wc_type": "Prop", "method": "Layer", "depth_layer": [1, 2], "value": ["FC", "FC"]}),
     # a fixed-depth evaporation layer re-wetted from below (shallow table) under net irrigation
-    dict(crop="Wheat", station="tunis_climate.txt", irr_method=4, soil="SandyLoam", soil_kind="builtin", dz=None,
-         soil_kw={"evap_z_min": 0.15, "evap_z_max": 0.15}, gw=True, gw_values=[1.0], n_seasons=1, start_mode="at",
+    dict(crop="Wheat", station="tunis_climate.txt", irr_method=4, irr_over={"NetIrrSMT": 70.0}, soil="SandyLoam", soil_kind="builtin", dz=None,
+         soil_kw={"evap_z_min": 0.15, "evap_z_max": 0.15}, gw=True, gw_values=[1.0], fm="none", planting="10/15", n_seasons=1, start_mode="at",
          iwc={"wc_type": "Pct", "method": "Layer", "depth_layer": [1], "value": [20.0]}),
     # a ponded, mulched paddy field through a cold season (cold-stress on transpiration; the pond dries between rains)
     dict(crop="PaddyRice", station="tunis_climate.txt", irr_method=2, irr_over={"IrrInterval": 5}, fm="mix",
@@ -511,6 +551,21 @@ QUICK_STRATA = [
     dict(crop="Wheat", station="tunis_climate.txt", irr_method=0, soil="Loam", soil_kind="builtin", n_seasons=2,
          start_mode="after", off_season=False, planting="10/15",
          co2={"constant": False, "series": [[1900, 300.0], [1975, 330.0], [1980, 380.0], [1985, 460.0], [1990, 540.0], [2100, 700.0]]}),
+    # a water table standing exactly at the soil surface
+    dict(crop="PaddyRice", station="hyderabad_climate.txt", irr_method=0, gw=True, gw_values=[0.0], soil="Paddy", soil_kind="builtin",
+         dz=[0.1] * 12, fm="none", planting="07/15", n_seasons=1, start_mode="before", off_season=True),
+    # windows that end one / two days after a later planting date (the last season consists of its planting day only)
+    dict(crop="Maize", station="champion_climate.txt", irr_method=0, n_seasons=2, start_mode="at", off_season=False, planting="05/01",
+         end_anniv=(1, 1), soil="SandyLoam", soil_kind="builtin"),
+    dict(crop="Tomato", station="cordoba_climate.txt", irr_method=2, n_seasons=3, start_mode="before", off_season=False, planting="04/15",
+         end_anniv=(2, 2)),
+    # a thermal-time, indeterminate crop calibrated to a low productivity during yield formation
+    dict(crop="CottonGDD", station="tunis_climate.txt", irr_method=1, crop_over={"WPy": 60.0}, soil="Loam", soil_kind="builtin",
+         planting="04/15", n_seasons=2, start_mode="at", off_season=False),
+    # deficit irrigation that stops well before senescence and resumes just after it (mild stress relieved late), dry weather
+    dict(crop="Maize", station="champion_climate.txt", soil="SandyLoam", soil_kind="builtin", dz=None, synth=True, regime="steady",
+         planting="05/01", n_seasons=1, start_mode="at", fm="none", gw=False, iwc={"wc_type": "Prop", "method": "Layer", "depth_layer": [1], "value": ["FC"]},
+         irr_sched_rel=[(d, 7.0) for d in range(1, 66)] + [(108, 40.0)] + [(d, 7.0) for d in range(109, 140)], irr_over={"MaxIrr": 40.0}),
     # three layers whose conductivity falls with depth under storms, behind low bunds and without: water that cannot
     # drain backs up to the surface from more than one compartment on the same day
     dict(crop="Tomato", irr_method=0, soil_kind="custom", dz=[0.1] * 12,
@@ -547,10 +602,17 @@ def corpus():
     return out
 
 
+def stratum_rng(seed, st):
+    """a generator that depends on the run's seed and on the stratum's own definition only: adding, removing or
+    reordering other strata (or changing what the free scenarios draw) leaves a stratum's scenario as it was"""
+    import zlib
+    return np.random.default_rng([int(seed), zlib.crc32(repr(sorted(st.items(), key=lambda kv: kv[0])).encode())])
+
+
 def gen_scenarios(seed, n, with_corpus=True):
     rng = np.random.default_rng(int(seed))
     out = list(corpus()) if with_corpus else []
     for i in range(n):
         st = QUICK_STRATA[i] if i < len(QUICK_STRATA) else None
-        out.append(gen_scenario(rng, i, st))
+        out.append(gen_scenario(stratum_rng(seed, st) if st is not None else rng, i, st))
     return out
